@@ -41,6 +41,8 @@ def replay(sid, rules, known):
         if r.returncode == 1 and hits:
             return dict(id=sid, outcome='reported', detail=','.join(hits))
         if r.returncode == 2:
+            if 'LOAD-FAILURE' in (r.stdout + r.stderr):
+                return dict(id=sid, outcome='skipped', detail='the patch applies to the current tree but does not compile there (later code uses what it removes); evaluated on its base commit by tools/seed_eval.py')
             return dict(id=sid, outcome='error', detail=(r.stdout + r.stderr)[-300:])
         return dict(id=sid, outcome='NOT-REPORTED', detail='')
     finally:
